@@ -284,6 +284,9 @@ func (s *sim) startWebseed(w *wsrc) bool {
 		return false
 	}
 	for i := sp.Begin; i < sp.End; i++ {
+		if len(s.requesters(i)) > 0 {
+			s.fpKinds["web-range-over-requested-piece"] = true
+		}
 		if s.pieces[i].Done || s.pieces[i].Writing {
 			s.bad("web-range-has-done", "web range [%d,%d) assigned to %s contains piece %d (Done=%v Writing=%v)", sp.Begin, sp.End, w.src.URL, i, s.pieces[i].Done, s.pieces[i].Writing)
 		}
@@ -688,8 +691,9 @@ func runHistory(k int) (fp string, viol []string, lg []string, desc string) {
 						s.logf("haveall %s", s.names[p])
 						s.pickFor(p)
 					case 1, 2:
+						dens := []int{2, 2, 6, 12}[r.Intn(4)] // also peers holding only a few pieces
 						for i := range s.pieces {
-							if r.Intn(2) == 0 {
+							if r.Intn(dens) == 0 {
 								s.pp.HandleHave(p, uint32(i))
 								s.have[p][uint32(i)] = true
 							}
